@@ -347,14 +347,34 @@ class Extracted:
         import builtins
 
         tree, _, _ = module_ast(self.relpath)
-        top = {st.name: st for st in tree.body if isinstance(st, ast.FunctionDef)}
+        top = {st.name: self.relpath for st in tree.body if isinstance(st, ast.FunctionDef)}
+        # plain functions of other uberjob modules that the real module imports by name (``from uberjob.x import helper``)
+        for st in tree.body:
+            if isinstance(st, ast.ImportFrom) and st.module and st.module.startswith("uberjob") and st.level == 0:
+                rel = st.module.split(".", 1)[1].replace(".", "/") + ".py" if "." in st.module else "__init__.py"
+                if not os.path.exists(os.path.join(REPO_PKG, rel)):
+                    rel = rel[:-3] + "/__init__.py"
+                    if not os.path.exists(os.path.join(REPO_PKG, rel)):
+                        continue
+                try:
+                    other, _, _ = module_ast(rel)
+                except (OSError, SyntaxError):
+                    continue
+                defs = {d.name for d in other.body if isinstance(d, ast.FunctionDef)}
+                for al in st.names:
+                    if al.name in defs and (al.asname or al.name) not in top:
+                        top[al.asname or al.name] = (rel, al.name)
         for name in sorted(_global_names(code)):
             if name in env or name in seen or hasattr(builtins, name) or name not in top:
                 continue
             seen.add(name)
+            where = top[name]
+            rel, real_name = (where, name) if isinstance(where, str) else where
             try:
-                ex = extract(self.relpath, name, cut_loops="auto", sym_containers=self.sym_containers)
+                ex = extract(rel, real_name, cut_loops="auto", sym_containers=self.sym_containers)
             except ExtractionError:
+                continue
+            if real_name != name:
                 continue
             m = ast.Module(body=[ex.node], type_ignores=[])
             ast.fix_missing_locations(m)
